@@ -1,12 +1,15 @@
-"""C02 -- shipped angular grids: labelling / shape clause only.
+"""C02 -- shipped angular grids: labelling / shape clauses and two table invariants.
 
 R1 inventory agreement: every advertised (method, degree, size) is backed by exactly the file the
    loader opens, with the members it reads, `points` of shape (size, 3) and `weights` of shape
    (size,) or (1,), and embedded degree/size members equal to the label.
 R2 dispatch agreement: the three string dispatch chains agree on keys, pair each key with tables
-   of one family, and map keys to caches injectively.
+   of one family, map keys to caches injectively, and every later test of the method name reads the
+   variable the dispatch reads.
+R3 table invariants, computed on the stored columns: unit-norm points; weights summing to 4 pi or to
+   one according to the constructor's convention for the method.
 
-Not decided: unit sphere, exactness to degree, sum of weights (numerical).
+Not decided: exactness to the labelled degree (integrating harmonics is a numerical experiment).
 """
 from __future__ import annotations
 
@@ -23,8 +26,11 @@ EXPLANATION = (
     "of angular.py, the loader's string dispatch and file-name template are extracted from its "
     "syntax tree, and every advertised grid is checked against the header (member names, shape, "
     "dtype, embedded degree/size scalars) of the .npz archive the loader would open.  Exhaustive "
-    "over all advertised (method, degree) pairs.  The numerical clauses (unit sphere, exactness, "
-    "sum of weights) are NOT decided: point/weight arrays are never loaded.")
+    "over all advertised (method, degree) pairs.  Two invariants are computed on the stored columns "
+    "of every table (no function is integrated, nothing of the package is executed): every point has "
+    "unit norm, and the weights sum to 4 pi or to one, whichever the constructor's branch for that "
+    "method implies.  The exactness clause (harmonics up to the labelled degree integrate exactly) "
+    "is NOT decided.")
 RULE = ("one instance per (method, size->degree table entry) x 5 obligations (file exists, members, "
         "points shape/dtype, weights shape, embedded labels) plus one per dispatch key and chain")
 
